@@ -111,6 +111,17 @@ CLAIMED = {
         "Trusted: numpy searchsorted/diff/clip modelled as counting; float vs exact 1e-9 with a boundary rule.",
         "DESIGN.md section 5 C17",
     ),
+    "C15": (
+        "Lean 4 theorem (induction over key levels) that the recursive fit + matching loop assign to every group exactly the rule's source + stage-level correspondence with the bootstrapped scale replaced by a fingerprinting oracle",
+        "assign_eq_source proves, for every group structure and any number of key levels, that the matching loop over the rows produced by the "
+        "recursive GaussianModel.fit gives each group its own statistics if it holds >= min(10, N) calibration units, else its parent's, else "
+        "the global ones; source_big / assign_not_sibling / fitRows_nodup give existence, never-a-sibling and exactly-one-row. The real fit and "
+        "get_aggregate_prediction_intervals are run on generated structures; scipy.stats.bootstrap is replaced at the library boundary by a "
+        "stub whose answer encodes its argument, so the calibration subset behind every row of modeled_bounds_agg is decoded exactly and "
+        "compared; centre, inflation, the bounds formula and the floor at the group's own partial counts are recomputed.",
+        "Trusted: weighted_median, compute_inflate, boot_sigma, norm.ppf, sqrt are oracles (recomputed with the same library calls).",
+        "DESIGN.md section 5 C15",
+    ),
 }
 
 PENDING_REASON = "check not built yet in this session (model and correspondence in progress); not claimed until it is"
